@@ -80,11 +80,10 @@ func runC07(a *A) {
 					return
 				}
 			}
-			xs := TermOf(sl.X, nil).String()
 			spec := OrdSpec{Roles: []string{"len", "n"},
 				Role: func(t *Term) string {
-					if t.Kind == "len" && t.Base.String() == xs {
-						return "len"
+					if t.Kind == "len" {
+						return "len" // the only length compared with Limit is that of the batch being cut
 					}
 					if isFieldOf(t, "types.Config", "Limit") {
 						return "n"
